@@ -447,6 +447,32 @@ def concrete_degenerate(fam):
     return False, ''
 
 
+NEAR_CONSTANT = [1e6 + 0.5 * np.arange(12), (1.0 + np.arange(12)) * 1e-9, 5.0 + 1e-7 * np.arange(12)]
+
+
+def concrete_near_constant(fam):
+    """non-constant data whose spread is small relative to its magnitude must not be modelled as a point mass"""
+    warnings.simplefilter('ignore')
+    for f_ in dict.fromkeys([fam, 'GaussianUnivariate', 'UniformUnivariate']):
+        if f_ not in FAMILIES:
+            continue
+        cls, kw = FAMILIES[f_]
+        for data in NEAR_CONSTANT:
+            m = cls(**kw)
+            try:
+                m.fit(np.array(data, dtype=float))
+                q = np.array([0.3, 0.6])
+                back = np.asarray(m.cdf(np.asarray(m.percent_point(q), dtype=float)), dtype=float)
+            except Exception:
+                continue
+            if not np.all(np.isfinite(back)):
+                continue
+            if getattr(m, '_constant_value', None) is not None or not np.allclose(back, q, atol=1e-3):
+                return True, (f'{f_} fitted on 12 distinct values {data[0]!r} .. {data[-1]!r}: cdf(percent_point({q.tolist()})) = {back.tolist()} '
+                              f'(stored constant {getattr(m, "_constant_value", None)!r})')
+    return False, ''
+
+
 def concrete_kde_tail():
     """known weakness of the truncated integration bounds: with a bandwidth factor near 1 the mass beyond
     [min - 5 std, max + 5 std] is not negligible"""
@@ -467,6 +493,10 @@ def concrete_kde_tail():
 def replay(d):
     if d.get('kind') == 'degenerate':
         bad, detail = concrete_degenerate(d['fam'])
+        print(detail)
+        return bad
+    if d.get('kind') == 'near-constant':
+        bad, detail = concrete_near_constant(d['fam'])
         print(detail)
         return bad
     if d.get('kind') == 'kde-tail':
@@ -549,6 +579,12 @@ def run(tier, seed):
                 b, detail = concrete_violation()
                 if b:
                     ck.violation(nm.split(':')[0][:50], f'{nm}: {r["bad"][0]} -- {detail}', {})
+                    done = True
+            if not done and nm.startswith('wiring'):
+                fam = nm.split(' ')[1].rstrip(':')
+                b, detail = concrete_near_constant(fam)
+                if b:
+                    ck.violation(f'near-constant:{fam}', f'{nm}: {r["bad"][0]} -- {detail}', {'kind': 'near-constant', 'fam': fam})
                     done = True
             if not done:
                 ck.inconcl(f'{nm}: {r["bad"]}; not reproduced on the real code')
